@@ -6,7 +6,7 @@ from typing import Any, Dict, List, Optional
 
 from . import terms as T
 from .progdb import AnalysisError
-from .values import (Columns, DefaultDict, ClassRef, Each, EnumRef, ExtMod, Frame, FuncRef, GenCall, GroupBy, GuardedSeq, Obj, PyTuple, ReMatch, Ser, to_term)
+from .values import (Columns, DefaultDict, ClassRef, Each, EnumRef, ExtMod, Frame, FuncRef, GenCall, GroupBy, GuardedSeq, ListIter, Obj, PyTuple, ReMatch, Ser, to_term)
 
 _CMP_METH = {"lt": "<", "le": "<=", "gt": ">", "ge": ">=", "eq": "==", "ne": "!="}
 REDUCTIONS = {"sum", "min", "max", "mean", "std", "count", "median", "nunique", "idxmax", "idxmin", "first", "last", "any", "all", "var", "prod", "size"}
@@ -336,6 +336,8 @@ class SeriesOps:
     # ------------------------------------------------------------------ python containers
     def python_method(self, obj: Any, name: str, pos, kw, node) -> Any:
         I = self.I
+        if any(isinstance(p_, GenCall) for p_ in pos):
+            pos = [I.materialise(p_) if isinstance(p_, GenCall) else p_ for p_ in pos]          # a container method consumes the generator it is given
         if isinstance(obj, list):
             if name == "append":
                 v = pos[0]
@@ -483,6 +485,9 @@ class SeriesOps:
             for x in seq:
                 acc = M.invoke(a0, [acc, x], {}, node, "reduce-callee")
             return acc
+        if short == "pairwise" and len(pos) == 1 and not kw and I._concrete_seq(a0) is not None and not any(isinstance(x, Each) for x in I._concrete_seq(a0)):
+            seq_ = I._concrete_seq(a0)          # itertools.pairwise / nx.utils.pairwise over known elements: the consecutive pairs
+            return [PyTuple([x, y]) for x, y in zip(seq_, seq_[1:])]
         if name == "pd.concat":
             frames = a0 if isinstance(a0, list) else (a0.items if isinstance(a0, PyTuple) else [Each(a0)] if not isinstance(a0, Frame) else [a0])
             if isinstance(a0, tuple) and a0 and a0[0] == "comp":
@@ -818,8 +823,20 @@ class SeriesOps:
             if isinstance(pos[1], str):
                 return self.M.getattr(a0, pos[1], node)
             return ("getattr", to_term(a0), to_term(pos[1]))
+        if fn == "iter" and len(pos) == 1 and isinstance(a0, (list, PyTuple)) and I.run.loop_depth == 0 and not any(isinstance(x, Each) for x in (a0 if isinstance(a0, list) else a0.items)):
+            return ListIter(a0 if isinstance(a0, list) else a0.items)          # a stateful iterator over known elements
         if fn in ("iter",):
             return ("iter", to_term(a0))
+        if fn == "next" and isinstance(a0, ListIter):
+            if a0.pos < len(a0.items):
+                a0.pos += 1
+                return a0.items[a0.pos - 1]
+            if len(pos) == 2:
+                return pos[1]
+            from .interp import _Raise
+            r_ = _Raise("StopIteration")
+            r_.concrete = True
+            raise r_
         if fn == "slice" and 1 <= len(pos) <= 3 and not kw:
             # slice(a, b[, c]) is the object x[a:b:c] subscripts with
             lo, hi, st = (None, pos[0], None) if len(pos) == 1 else (pos[0], pos[1], pos[2] if len(pos) == 3 else None)
